@@ -70,18 +70,18 @@ NESTS = ("top", "arith", "case_branch", "case_cond", "ctx_kwarg")
 POSITIONS = ("arith", "case_cond", "case_branch", "ctx_filter", "ctx_arrange", "ctx_partition")
 
 
-def gen_reject(g):
+def gen_reject(g, *, force_pt=None, force_rules=None):
     """-> reject step (generator side: chooses rule, verb position, nesting; all by name).
     A rule is chosen among those whose precondition holds for some table (pair) of the pool."""
     m = g.m
     rng = g.rng
     rules = list(RULES)
-    only = g.p.get("reject_rules")
+    only = force_rules or g.p.get("reject_rules")
     if only:
         rules = [r for r in rules if r in only]
     T = m.model.toks
     for _ in range(8):
-        pt = g.pick_table(lambda p: len(p.m.visible) >= 2)
+        pt = force_pt or g.pick_table(lambda p: len(p.m.visible) >= 2)
         if pt is None:
             return None
         rule = rng.choice(rules)
